@@ -91,6 +91,38 @@ def handle (line : String) : String :=
         | .ok a => pure (showNames (filterFromBindings (stdBuiltins 0) env (params a)))) with
       | some r => r
       | none => "bad-request"
+    else if cmd == "xexec" then
+      -- xexec <ext table> <env> <hexsrc>: like exec, the library parameters answered from the table
+      match (do
+        let (tbl, rest) ← Wire.parseExt args
+        let (env, rest) ← Wire.parseEnv rest
+        let src ← match rest with | [h] => Wire.strOfHex h | [] => some [] | _ => none
+        let B := tableBuiltins tbl 0
+        match parseProgram lazySrc src with
+        | .error _ => pure "e:syntax L:0"
+        | .ok a => pure (Wire.showOut (execProg B env (compileProgram B a)))) with
+      | some r => r
+      | none => "bad-request"
+    else if cmd == "xcall" then
+      -- xcall <ext table> f|c <hexname> <this> <l:n args>: one built-in function / constructor applied directly
+      match (do
+        let (tbl, rest) ← Wire.parseExt args
+        let B := tableBuiltins tbl 0
+        match rest with
+        | kind :: h :: rest => do
+          let name ← Wire.strOfHex h
+          let (this, rest) ← Wire.parseVal rest
+          let (a, _) ← Wire.parseVal rest
+          match a with
+          | .list vs =>
+            if kind == "c" then pure (Wire.showVal (B.ctor name vs))
+            else (match B.func name with
+              | some f => pure (Wire.showVal (f this vs))
+              | none => pure "unbound")
+          | _ => none
+        | _ => none) with
+      | some r => r
+      | none => "bad-request"
     else if cmd == "wf" then
       match Wire.parseVal args with
       | some (.code c, _) => wfDiag c
